@@ -7,6 +7,9 @@
 // Op "flood" {t, n, prefix, args, atts}: n requests (batch 1) with n FRESH distinct values of the trace's argument
 // type - never used before or afterwards in the trace - each placed where the template (args / atts with the
 // placeholder "*") puts the selected argument; ONE summary record: how many were admitted, total Sleep.
+// Ops "mnew" {tr, ty, cf, rules} / "mreload" {t, rules} / "mreq" {t, args, atts, b}: SEVERAL reject-mode rules
+// [idx, key, T] on one resource (statistic parameters from cf), replaced by hotspot.LoadRules under traffic; a refused
+// request records which rule refused it (blk = 1-based position of BlockError.TriggeredRule in the list in force).
 // The recorded trace is validated against spec/HotParamQps_Trace.tla.
 //
 // usage: c05 <scenarios.ndjson> <trace.ndjson>
@@ -111,6 +114,18 @@ func request(clk *hx.VClock, res string, o []api.EntryOption) (ok bool, waitMs i
 	return true, ns / 1e6, false
 }
 
+// the rule list of an "mnew" / "mreload" op
+func multiRules(res string, cf map[string]interface{}, list []interface{}) []*hotspot.Rule {
+	var out []*hotspot.Rule
+	for _, x := range list {
+		m := x.(map[string]interface{})
+		out = append(out, &hotspot.Rule{Resource: res, MetricType: hotspot.QPS, ControlBehavior: hotspot.Reject,
+			ParamIndex: int(hx.Int(m, "idx")), ParamKey: hx.Str(m, "key"), Threshold: hx.Int(m, "T"),
+			BurstCount: hx.Int(cf, "B"), DurationInSec: hx.Int(cf, "D") / 1000})
+	}
+	return out
+}
+
 func main() {
 	if len(os.Args) < 3 {
 		hx.Fatal("usage: c05 scenarios.ndjson trace.ndjson")
@@ -127,6 +142,8 @@ func main() {
 	tr := hx.NewTrace(os.Args[2])
 	defer tr.Close()
 	var r *run
+	var mcf map[string]interface{}
+	var mrules []*hotspot.Rule
 	for _, s := range scn {
 		switch op := hx.Str(s, "op"); op {
 		case "new":
@@ -197,6 +214,77 @@ func main() {
 					rec["panic"] = true
 				}
 			}
+			tr.Emit(rec)
+		case "mnew", "mreload":
+			if op == "mnew" {
+				_ = hotspot.ClearRules()
+				stat.ResetResourceNodeMap()
+				clk.SetMs(base0)
+				r = &run{tr: hx.Int(s, "tr"), tab: hpx.NewTable(hx.Str(s, "ty"))}
+				mcf = s["cf"].(map[string]interface{})
+			} else {
+				clk.SetMs(base0 + hx.Int(s, "t"))
+			}
+			list, _ := s["rules"].([]interface{})
+			mrules = multiRules(r.main(), mcf, list)
+			if _, err := hotspot.LoadRules(mrules); err != nil {
+				hx.Fatal("LoadRules: %v", err)
+			}
+			rec := hx.M{"op": op, "t": hx.Int(s, "t"), "rules": list, "loaded": len(hotspot.GetRulesOfResource(r.main()))}
+			if op == "mnew" {
+				rec["tr"], rec["ty"], rec["cf"] = r.tr, r.tab.Ty, mcf
+			}
+			tr.Emit(rec)
+		case "mreq":
+			t, b := hx.Int(s, "t"), hx.Int(s, "b")
+			clk.SetMs(base0 + t)
+			var o []api.EntryOption
+			if a := r.tab.Args(s["args"]); len(a) > 0 {
+				o = append(o, api.WithArgs(a...))
+			}
+			if m := r.tab.Atts(s["atts"]); m != nil {
+				o = append(o, api.WithAttachments(m))
+			}
+			o = append(o, api.WithBatchCount(uint32(b)))
+			args, atts := s["args"], s["atts"]
+			if args == nil {
+				args = []interface{}{}
+			}
+			if atts == nil {
+				atts = hx.M{}
+			}
+			rec := hx.M{"op": "mreq", "t": t, "args": args, "atts": atts, "b": b, "blk": 0}
+			func() {
+				clk.TakeSleeps()
+				defer func() {
+					if x := recover(); x != nil {
+						rec["ok"], rec["wait"], rec["panic"] = false, 0, true
+					}
+				}()
+				e, blk := api.Entry(r.main(), o...)
+				var ns int64
+				for _, sl := range clk.TakeSleeps() {
+					ns += sl
+				}
+				rec["wait"] = ns / 1e6
+				rec["ok"] = blk == nil
+				if blk != nil {
+					rec["blk"] = -1
+					if blk.BlockType() != base.BlockTypeHotSpotParamFlow {
+						hx.Fatal("blocked by an unexpected slot: %v", blk.BlockType())
+					}
+					if tr, ok := blk.TriggeredRule().(*hotspot.Rule); ok && tr != nil {
+						for i, x := range mrules {
+							if x.ParamIndex == tr.ParamIndex && x.ParamKey == tr.ParamKey && x.Threshold == tr.Threshold {
+								rec["blk"] = i + 1
+								break
+							}
+						}
+					}
+				} else {
+					e.Exit()
+				}
+			}()
 			tr.Emit(rec)
 		case "flood":
 			t, n := hx.Int(s, "t"), hx.Int(s, "n")
